@@ -100,12 +100,17 @@ class Termination:
             f = az.formula(t)
             if isinstance(t, ast.Compare) and isinstance(t.left, ast.Name):
                 p = t.left.id
-                ok_cond = G.equivalent(f, az.formula(common.spec_expr(f"{p} >= 0")))[0]
+                # p only ever holds a find() result (>= -1), so `p != -1` / `p > -1` say the same as `p >= 0`
+                stores_p = [x for x in own_nodes(fi.node) if isinstance(x, ast.Assign) and len(x.targets) == 1 and common.is_name(x.targets[0], p)]
+                find_only = bool(stores_p) and all(isinstance(x.value, ast.Call) and isinstance(x.value.func, ast.Attribute) and x.value.func.attr in ("find", "rfind")
+                                                   for x in stores_p)
+                assuming = az.formula(common.spec_expr(f"{p} >= -1")) if find_only else G.T
+                ok_cond = G.equivalent(f, az.formula(common.spec_expr(f"{p} >= 0")), assuming=assuming)[0]
                 last = lp.body[-1] if lp.body else None
                 if ok_cond and isinstance(last, ast.Assign) and common.is_name(last.targets[0], p) and isinstance(last.value, ast.Call) and \
                         isinstance(last.value.func, ast.Attribute) and last.value.func.attr == "find" and len(last.value.args) == 2:
                     kw = last.value.args[0]
-                    env = common.block_env(lp.body, last) or {}
+                    env = common.block_env(fi.body, last) or {}
                     off = lin_of_ast(G.Atomizer(subst=env).inline(last.value.args[1]), lambda x: Lin.sym(norm_src(x)))
                     others = [x for s in lp.body[:-1] for x in ast.walk(s) if isinstance(x, ast.Name) and x.id == p and isinstance(x.ctx, ast.Store)]
                     conts = [x for s in lp.body for x in ast.walk(s) if isinstance(x, ast.Continue)]
